@@ -99,7 +99,7 @@ var propC13 = hx.Register(hx.Prop[CaseC13]{ID: "C13", Gen: genC13, Check: checkC
 
 func c13Rule() {
 	hx.Rec("C13").SetRule("cases: byte strings with length from {0..64} u {3,4,5,8,16,183,184,188,1021,1024} u uniform 0..4096, contents random / all-zero / all-0xFF / a single set bit; one case in eight begins with one or two complete CRC-valid blocks of 4..8192 bytes (running checksum zero at the block end) followed by 0..300 more bytes. Oracle: ComputeCRC(s) equals the big-endian CRC-32/MPEG-2 of s computed by an independent reference (table-driven, cross-checked against a bit-by-bit transcription of the definition and the catalogue check value 0x0376E6E7), and ComputeCRC(s++ComputeCRC(s)) is zero. Enumerated: all strings of length 0, 1, 2; all single-bit strings of length 1..L (quick L=96 plus 64 longer lengths up to 1024, thorough L=1024). Emitted sections: encoded splice_info_sections (both construction paths, setter histories, alignment stuffing 0..7) and filtered PMTs (one input in three carries a stale CRC_32 of its own) must have residue 0 under the reference CRC. Non-trivial: length >= 1; distinct by content.",
-		"emitted sections are generated with the C09 (API-built / decoded + setter history + alignment stuffing) and C14 (filtered multi-packet PMT) generators; their residue is checked with the reference CRC")
+		"emitted sections are generated with the C09 (API-built / decoded + setter history + alignment stuffing) and C14 (filtered multi-packet PMT) generators; their residue is checked with the reference CRC, for an emitted splice_info_section both over the bytes returned and over the bytes section_length delimits (alignment stuffing 0..7, or what fills the section to 4089..4093)")
 }
 
 func TestC13(t *testing.T) {
